@@ -110,4 +110,28 @@ def announce (gap : Nat) (st : St) (s : Snap) (vid base : Nat) : St :=
               aggs := { snap := s, commitments := 1, responses := 0, base := base } ::
                       st.aggs.filter (fun a => !(a.snap.hash == s.hash)) }
 
+/-- `kernel.OneDay` in nanoseconds -/
+def oneDay : Nat := 86400000000000
+
+/-- `cosiSendAnnouncement` including the early returns of `prepareAnnouncement` for an open round
+    that already has a finalized snapshot (first one stamped `cft`, round timestamp `roundTs`) and
+    a proposal inside the round gap (`s.ts < cft + gap`, so no round transition): a proposal not
+    after the round timestamp, after the 4/5 cutoff, or on another UTC day than the round's first
+    snapshot is deferred and ALL its transactions are handed to `requeueTransactions`; otherwise
+    the guard / installation step runs. -/
+def announceAt (gap : Nat) (st : St) (s : Snap) (vid base roundTs cft : Nat) : St :=
+  if s.ts ≤ roundTs then requeue st s.txs
+  else if s.ts > cft + gap * 4 / 5 then requeue st s.txs
+  else if s.ts / oneDay ≠ cft / oneDay then requeue st s.txs
+  else announce gap st s vid base
+
+/-- `cosiHandleAction` for a self announcement whose sanity check fails in
+    `validateSnapshotTransaction`: the error class "the first transaction it looks at is finalized
+    in another snapshot" makes `shouldRequeueSelfAnnouncement` answer true and the whole batch goes
+    to `requeueTransactions`; nothing is installed. -/
+def sanityFinalizedElsewhere (st : St) (txs : List Nat) : Option St :=
+  match txs with
+  | x :: _ => if st.finalized.contains x then some (requeue st txs) else none
+  | [] => none
+
 end Mixin.Requeue
